@@ -220,6 +220,21 @@ mk B12; d=$D
 edit "$d/stats/sample.go" 's.replace("\t\t\ttarget -= weight\n\t\t\tif target < 0 {", "\t\t\ttarget -= weight\n\t\t\tif target <= 0 {")'
 expect B12 "$d" C10 tie_failed tie_Sample_Quantile
 
+echo "== H8 harmless: Welch test with named temporaries, one square written as a product, sums reordered"
+mk H8; d=$D
+edit "$d/stats/ttest.go" 's.replace("\tdof := math.Pow(v1/n1+v2/n2, 2) /\n\t\t(math.Pow(v1/n1, 2)/(n1-1) + math.Pow(v2/n2, 2)/(n2-1))\n\ts := math.Sqrt(v1/n1 + v2/n2)", "\ta, b := v1/n1, v2/n2\n\tdof := math.Pow(a+b, 2) / (b*b/(n2-1) + math.Pow(a, 2)/(n1-1))\n\ts := math.Sqrt(b + a)")'
+expect H8 "$d" C04 ok
+
+echo "== B13 breaking: pooled t-test with n1+n2-1 degrees of freedom"
+mk B13; d=$D
+edit "$d/stats/ttest.go" 's.replace("dof := n1 + n2 - 2", "dof := n1 + n2 - 1")'
+expect B13 "$d" C04 tie_failed tie_TwoSampleTTest
+
+echo "== B14 breaking: the LocationLess tail is 1 - CDF(t)"
+mk B14; d=$D
+edit "$d/stats/ttest.go" 's.replace("\tcase LocationLess:\n\t\tp = dist.CDF(t)", "\tcase LocationLess:\n\t\tp = 1 - dist.CDF(t)")'
+expect B14 "$d" C04 tie_failed tie_newTTestResult
+
 if [ $FULL = 1 ]; then
   echo "== full check on B1: both ties report (correspondence finds a failing input)"
   out=$(VERIF_REPO="$B1" bin/check C13 quick 2>&1); rc=$?
